@@ -17,67 +17,99 @@ open OLP OLP.Ledger
 /-! ## the primitives of data/balance/balance_store.go -/
 
 theorem minusFrom_total (l l' : L) (a : Acc) (c : Int) (h : minusFrom l a c = .ok l') :
-    total l' = total l - c := sorry
+    total l' = total l - c := by
+  obtain ⟨_, rfl⟩ := minusFrom_ok l l' a c h
+  rw [total_setBal]; omega
 
-theorem addTo_total (l : L) (a : Acc) (c : Int) : total (addTo l a c) = total l + c := sorry
+theorem addTo_total (l : L) (a : Acc) (c : Int) : total (addTo l a c) = total l + c := by
+  unfold addTo
+  rw [total_setBal]; omega
 
 /-- debit and credit of THE SAME coin conserve the total — for every coin, whatever its sign or size -/
 theorem transfer_conserves (l l' : L) (s d : Acc) (c : Int) (h : transfer l s d c = .ok l') :
-    total l' = total l := sorry
+    total l' = total l := by
+  obtain ⟨l₁, hm, rfl⟩ := transfer_ok l l' s d c h
+  rw [addTo_total, minusFrom_total l l₁ s c hm]; omega
 
 /-- a debit never leaves a negative amount behind (the `Minus` check) -/
 theorem minusFrom_nonneg (l l' : L) (a : Acc) (c : Int) (hn : NonNeg l)
-    (h : minusFrom l a c = .ok l') : NonNeg l' := sorry
+    (h : minusFrom l a c = .ok l') : NonNeg l' := by
+  obtain ⟨h0, rfl⟩ := minusFrom_ok l l' a c h
+  exact nonNeg_setBal l a _ hn h0
 
 /-- a credit keeps amounts non-negative when the coin is non-negative -/
 theorem addTo_nonneg (l : L) (a : Acc) (c : Int) (hn : NonNeg l) (hc : 0 ≤ c) :
-    NonNeg (addTo l a c) := sorry
+    NonNeg (addTo l a c) := by
+  unfold addTo
+  have := bal_nonneg l a hn
+  exact nonNeg_setBal l a _ hn (by omega)
 
 theorem transfer_nonneg (l l' : L) (s d : Acc) (c : Int) (hn : NonNeg l) (hc : 0 ≤ c)
-    (h : transfer l s d c = .ok l') : NonNeg l' := sorry
+    (h : transfer l s d c = .ok l') : NonNeg l' := by
+  obtain ⟨l₁, hm, rfl⟩ := transfer_ok l l' s d c h
+  exact addTo_nonneg l₁ d c (minusFrom_nonneg l l₁ s c hn hm) hc
 
 /-- … and ONLY then: crediting a negative coin drives the receiver below zero (the shape of the
     missing-validation defects S5, S6, S7, S26) -/
 theorem negative_credit_breaks_nonneg :
-    ∃ l', transfer [("a", 5), ("b", 0)] "a" "b" (-3) = .ok l' ∧ ¬ NonNeg l' := sorry
+    ∃ l', transfer [("a", 5), ("b", 0)] "a" "b" (-3) = .ok l' ∧ ¬ NonNeg l' := by
+  refine ⟨[("a", 8), ("b", -3)], by rfl, ?_⟩
+  intro hn
+  have := hn ("b", -3) (by simp)
+  simp at this
 
 /-! ## SEND and the fee step, at full strength (no hypothesis on the amounts) -/
 
 theorem send_conserves (l l' : L) (s d : Acc) (amt : Int) (h : send l s d amt = .ok l') :
-    total l' = total l := sorry
+    total l' = total l := by
+  exact transfer_conserves l l' s d amt (send_ok l l' s d amt h).2
 
 theorem send_nonneg (l l' : L) (s d : Acc) (amt : Int) (hn : NonNeg l)
-    (h : send l s d amt = .ok l') : NonNeg l' := sorry
+    (h : send l s d amt = .ok l') : NonNeg l' := by
+  obtain ⟨ha, ht⟩ := send_ok l l' s d amt h
+  exact transfer_nonneg l l' s d amt hn ha ht
 
 theorem feeStep_conserves (l l' : L) (s p : Acc) (price used : Int)
-    (h : feeStep l s p price used = .ok l') : total l' = total l := sorry
+    (h : feeStep l s p price used = .ok l') : total l' = total l := by
+  exact transfer_conserves l l' s p (price * used) h
 
 theorem txSend_conserves (l l' : L) (s d p : Acc) (amt price used : Int)
-    (h : txSend l s d p amt price used = .ok l') : total l' = total l := sorry
+    (h : txSend l s d p amt price used = .ok l') : total l' = total l := by
+  obtain ⟨l₁, hs, hf⟩ := txSend_ok l l' s d p amt price used h
+  rw [feeStep_conserves l₁ l' s p price used hf, send_conserves l l₁ s d amt hs]
 
 /-- full statement for a whole SEND transaction: needs the fee charge to be non-negative, which
     `ValidateFee` (price ≥ minimal fee > 0) and the gas counter (used ≥ 0) provide -/
 theorem txSend_nonneg (l l' : L) (s d p : Acc) (amt price used : Int) (hn : NonNeg l)
-    (hp : 0 ≤ price) (hu : 0 ≤ used) (h : txSend l s d p amt price used = .ok l') : NonNeg l' := sorry
+    (hp : 0 ≤ price) (hu : 0 ≤ used) (h : txSend l s d p amt price used = .ok l') : NonNeg l' := by
+  obtain ⟨l₁, hs, hf⟩ := txSend_ok l l' s d p amt price used h
+  exact transfer_nonneg l₁ l' s p (price * used) (send_nonneg l l₁ s d amt hn hs)
+    (Int.mul_nonneg hp hu) hf
 
 /-- SENDPOOL as written relies on `Validate` for the sign of the amount -/
 theorem sendPoolRaw_nonneg_partial (l l' : L) (s p : Acc) (amt : Int) (hn : NonNeg l) (ha : 0 ≤ amt)
-    (h : sendPoolRaw l s p amt = .ok l') : NonNeg l' := sorry
+    (h : sendPoolRaw l s p amt = .ok l') : NonNeg l' := by
+  exact transfer_nonneg l l' s p amt hn ha h
 
 /-! ## the shape of S4: debit one coin, record another -/
 
 /-- debiting `c₁` and crediting `c₂` changes the total by exactly `c₂ − c₁` -/
 theorem mismatched_coins_change_total (l l' : L) (s d : Acc) (c₁ c₂ : Int)
-    (h : minusFrom l s c₁ = .ok l') : total (addTo l' d c₂) = total l + (c₂ - c₁) := sorry
+    (h : minusFrom l s c₁ = .ok l') : total (addTo l' d c₂) = total l + (c₂ - c₁) := by
+  rw [addTo_total, minusFrom_total l l' s c₁ h]; omega
 
 /-- `Int64()` wraps: staking 2^64+1 whole tokens costs one token -/
 theorem toCoinWithBase_wraps :
     toCoinWithBase 18446744073709551617 18 = 1000000000000000000 ∧
-    toCoinWithBase 18446744073709551617 18 ≠ 18446744073709551617 * 10 ^ 18 := sorry
+    toCoinWithBase 18446744073709551617 18 ≠ 18446744073709551617 * 10 ^ 18 := by
+  decide
 
 /-- … and is exact precisely on the int64 range -/
 theorem wrap64_exact_iff (x : Int) :
-    wrap64 x = x ↔ (-9223372036854775808 ≤ x ∧ x < 9223372036854775808) := sorry
+    wrap64 x = x ↔ (-9223372036854775808 ≤ x ∧ x < 9223372036854775808) := by
+  unfold wrap64
+  simp only
+  split <;> omega
 
 /-! ## lifting to histories -/
 
@@ -87,10 +119,22 @@ theorem wrap64_exact_iff (x : Int) :
 theorem history_no_creation {Op : Type} (step : L → Op → L) (mint : Op → Int)
     (hstep : ∀ l op, NonNeg l → total (step l op) ≤ total l + mint op ∧ NonNeg (step l op))
     (l : L) (hn : NonNeg l) (ops : List Op) :
-    total (ops.foldl step l) ≤ total l + (ops.map mint).sum ∧ NonNeg (ops.foldl step l) := sorry
+    total (ops.foldl step l) ≤ total l + (ops.map mint).sum ∧ NonNeg (ops.foldl step l) := by
+  induction ops generalizing l with
+  | nil => simp [hn]
+  | cons op t ih =>
+    obtain ⟨h1, h2⟩ := hstep l op hn
+    obtain ⟨h3, h4⟩ := ih (step l op) h2
+    refine ⟨?_, h4⟩
+    simp only [List.foldl_cons, List.map_cons, List.sum_cons]
+    omega
 
 /-! ## Non-vacuity -/
 example : NonNeg [("a", 5), ("b", 0)] ∧ total [("a", 5), ("b", 0)] = 5 ∧
-    (∃ l', send [("a", 5), ("b", 0)] "a" "b" 3 = .ok l' ∧ bal l' "b" = 3 ∧ bal l' "a" = 2) := sorry
+    (∃ l', send [("a", 5), ("b", 0)] "a" "b" 3 = .ok l' ∧ bal l' "b" = 3 ∧ bal l' "a" = 2) := by
+  refine ⟨?_, by decide, [("a", 2), ("b", 3)], by rfl, by decide, by decide⟩
+  intro p hp
+  simp at hp
+  rcases hp with rfl | rfl <;> simp
 
 end OLP.Props.C02
